@@ -27,7 +27,8 @@ var propSpecs = map[string]*PropSpec{
 	"C02": {ID: "C02", Pkgs: []string{"./benchfmt", "./benchunit", "./benchfmt/internal/bytesconv"}},
 	"C03": {ID: "C03", Pkgs: []string{"./benchfmt", "./benchunit", "./benchfmt/internal/bytesconv"}, BoundedChecks: []boundedSpec{
 		{"benchfmt/internal/bytesconv", "parsefloat", "bytesconv.ParseFloat and Atoi agree bit for bit (value and error kind) with strconv on an enumerated corpus — stands in for the multiprecision slow path (decimal.go, atofHex), which is outside deductive reach"}}},
-	"C04": {ID: "C04", Pkgs: []string{"./benchfmt", "./benchunit", "./benchproc"}},
+	"C04": {ID: "C04", Pkgs: []string{"./benchfmt", "./benchunit", "./benchproc", "./benchfmt/internal/bytesconv"}, BoundedChecks: []boundedSpec{
+		{"benchunit", "tidy", "Tidy against a reference normaliser written from the documented rule (numerator ns->sec /1e9, MB->B *1e6 per token; substrings and denominators untouched), its idempotence, and agreement of fast paths, slow path and cache — stands in for tidyUnitUncached and the unit tokeniser, which are not under a functional contract"}}},
 	"C05": {ID: "C05", Pkgs: []string{"./benchfmt", "./benchproc"}, BoundedChecks: []boundedSpec{
 		{"benchproc", "extract", "key extraction (/k first segment, /gomaxprocs, absent = empty) against a reference written from the format description, for every name up to a stated length over the alphabet {a b / - = 1}"}}},
 	"C06": {ID: "C06", Pkgs: []string{"./benchproc", "./benchproc/internal/parse"}},
